@@ -1,10 +1,10 @@
 (* C19 -- File-accepting services stay inside their directory and publish atomically.
-   Property theorems only; models in lib/Paths.v, lib/Upload.v (+ gen/UploadGen.v translated from the source),
-   proofs in lib/PathsProofs.v, lib/UploadProofs.v. *)
+   Property theorems only; models in lib/Paths.v, lib/Upload.v, lib/UploadHist.v (+ gen/UploadGen.v translated from the
+   source), proofs in lib/PathsProofs.v, lib/UploadProofs.v, lib/UploadHistProofs.v. *)
 From Coq Require Import NArith List Bool.
 Import ListNotations.
 Require Import Verif.lib.UploadShape Verif.gen.UploadGen Verif.lib.Paths Verif.lib.PathsProofs
-               Verif.lib.Upload Verif.lib.UploadProofs.
+               Verif.lib.Upload Verif.lib.UploadProofs Verif.lib.UploadHist Verif.lib.UploadHistProofs.
 
 (* "whatever file or incident name the remote peer supplies": what FilePath.child followed by the parent() test
    lets through is exactly base/<one component>, the component being normpath(name): non-empty, without
@@ -27,6 +27,12 @@ Theorem C19_plain_names_accepted : forall g cwd base c, wf_base base -> goodb c 
   guarded g cwd base c = Some (base ++ sep :: c).
 Proof. exact guarded_accepts_good. Qed.
 Print Assumptions C19_plain_names_accepted.
+
+(* ... by the whole entry point remote_putfile (a literal up-front refusal, where the code has one, refuses no honest name) *)
+Theorem C19_putfile_serves_good : forall cwd base c, wf_base base -> goodb c = true ->
+  putfile_final cwd base c = Some (base ++ sep :: c).
+Proof. exact putfile_serves_good. Qed.
+Print Assumptions C19_putfile_serves_good.
 
 (* "the upload service only ever creates or replaces files directly inside its configured directory": every path
    named by any operation (hence by any prefix) of a served putfile, complete or interrupted *)
@@ -130,3 +136,135 @@ Theorem C19_rename_retry_refuted :
   look (step_fault s0 (Rename [47; 116]%N [47; 114]%N)) [47; 114]%N = VFile [111]%N.
 Proof. exact rename_retry_loses_registry. Qed.
 Print Assumptions C19_rename_retry_refuted.
+
+(* ======================= histories: crash, restart on the leftovers, links planted in between ======================= *)
+
+(* the temporary name is an existing DIRECTORY (the one initial state the theorems above exclude): open() raises, the
+   state after any prefix is the initial one (possibly marked failed), for every ending of the block stream *)
+Theorem C19_tmp_is_directory : forall s0 final blocks oc k,
+  failed s0 = false -> names s0 (final ++ putfile_tmp_ext) = Some D ->
+  (run s0 (firstn k (upload_ops final blocks oc)) = s0 \/ run s0 (firstn k (upload_ops final blocks oc)) = fail s0) /\
+  ((2 <= k)%nat -> failed (run s0 (firstn k (upload_ops final blocks oc))) = true).
+Proof. exact upload_tmp_is_directory. Qed.
+Print Assumptions C19_tmp_is_directory.
+
+(* the file-system invariant (inode numbers below `next`, no second name for an inode) is kept by EVERY operation of the
+   model, performed or failing -- which is what lets the per-call theorems be applied again after a restart *)
+Theorem C19_fs_invariant : forall s o, Inv s -> Inv (step s o) /\ Inv (step_fault s o) /\ Inv (reboot s).
+Proof. exact fs_invariant. Qed.
+Print Assumptions C19_fs_invariant.
+
+(* "only ever ... directly inside", "only when complete", "neither a partial file under the final name ...", for ALL
+   HISTORIES: any sequence of uploads (any accepted names, any block lists, each completed, interrupted by the source,
+   or killed before any of its operations), every one starting on the directory its predecessors left behind (stale
+   `.partial` files included), with symlinks planted at arbitrary names between the calls: no operation ever goes
+   through a symlink, directories stay, and every name that is not the temporary of one of the uploads shows its
+   initial entry, a planted link, or the COMPLETE content of an upload sent under that name.  No hypothesis on the
+   initial directory beyond the invariant.  SEQUENTIAL: one upload at a time touches a given name; two OVERLAPPING uploads
+   of the same name share `<name>.partial` (one inode) and are outside every theorem of this file -- the harness replays
+   them on the code (oracle/overlapping-uploads-same-name-tear-file). *)
+Theorem C19_upload_history_sequential : forall s0 es,
+  Inv s0 -> failed s0 = false -> followed s0 = false ->
+  Inv (uhistory s0 es) /\ failed (uhistory s0 es) = false /\ followed (uhistory s0 es) = false /\
+  dsame s0 (uhistory s0 es) /\
+  (forall q, ~ In q (utmps es) -> uallowed s0 es q (look (uhistory s0 es) q)).
+Proof. exact uhistory_safe. Qed.
+Print Assumptions C19_upload_history_sequential.
+
+(* recovery: after any such history an upload that runs to completion publishes the complete file, leaves no temporary *)
+Theorem C19_upload_recovery_sequential : forall s0 es final blocks,
+  Inv s0 -> failed s0 = false -> followed s0 = false ->
+  names s0 (final ++ putfile_tmp_ext) <> Some D -> names s0 final <> Some D ->
+  look (run (uhistory s0 es) (upload_ops final blocks Done)) final = VFile (concat blocks) /\
+  names (run (uhistory s0 es) (upload_ops final blocks Done)) (final ++ putfile_tmp_ext) = None /\
+  failed (run (uhistory s0 es) (upload_ops final blocks Done)) = false.
+Proof. exact uhistory_recovers. Qed.
+Print Assumptions C19_upload_recovery_sequential.
+
+(* a link planted WHILE a call runs (between the islink() test and open()) IS followed: containment does not hold against
+   a concurrent local actor with write access to the directory; planted before the call it is removed.  The property
+   quantifies over what the REMOTE peer supplies: recorded as outside it (harness: note `toctou`, replayed on the code) *)
+Theorem C19_concurrent_symlink_refuted :
+  let tmp := ex_final ++ putfile_tmp_ext in
+  let s0 := mk_st [] [] in
+  Inv s0 /\ clean s0 /\
+  followed (run (plant (run s0 [UnlinkIfLink tmp]) tmp [47; 101; 116; 99; 47; 110; 101; 119]%N) [Open tmp]) = true /\
+  followed (run (plant s0 tmp [47; 101; 116; 99; 47; 110; 101; 119]%N) [UnlinkIfLink tmp; Open tmp]) = false.
+Proof. exact concurrent_symlink_refuted. Qed.
+Print Assumptions C19_concurrent_symlink_refuted.
+
+(* "the service registry on disk is at every instant either the complete old or the complete new version", for ALL
+   HISTORIES of rewrites: each killed before any operation, or with any system call failing, or completing; every one
+   starting on what its predecessors left (a stale services.json.tmp included); links planted anywhere except at the
+   temporary name (save_service_data opens it without looking: a local actor who plants a link THERE wins) *)
+Theorem C19_registry_history : forall basedir s0 es, rstate_ok basedir s0 ->
+  (forall p t, In (RPlant p t) es -> p <> registry_final basedir ++ registry_tmp_ext) ->
+  rstate_ok basedir (rhistory basedir s0 es) /\
+  (forall q, q <> registry_final basedir ++ registry_tmp_ext -> rallowed s0 es q (look (rhistory basedir s0 es) q)).
+Proof. exact rhistory_safe. Qed.
+Print Assumptions C19_registry_history.
+
+(* save_service_data / load_service_data as a pair (they name the same file: translated from both functions): after any
+   prefix or any failing system call of a rewrite, what load reads is what it read before or the complete new text *)
+Theorem C19_registry_save_load : forall s0 basedir chunks k f, rstate_ok basedir s0 ->
+  registry_load (do_revent basedir s0 (RSave chunks k f)) basedir = registry_load s0 basedir \/
+  registry_load (do_revent basedir s0 (RSave chunks k f)) basedir = LoadedJson (concat chunks).
+Proof. exact registry_save_load. Qed.
+Print Assumptions C19_registry_save_load.
+
+(* recovery: after any history a rewrite that runs to completion is what load reads, and no services.json.tmp is left *)
+Theorem C19_registry_recovery : forall basedir s0 es chunks, rstate_ok basedir s0 ->
+  (forall p t, In (RPlant p t) es -> p <> registry_final basedir ++ registry_tmp_ext) ->
+  registry_load (run (rhistory basedir s0 es) (registry_ops basedir chunks)) basedir = LoadedJson (concat chunks) /\
+  names (run (rhistory basedir s0 es) (registry_ops basedir chunks)) (registry_final basedir ++ registry_tmp_ext) = None.
+Proof. exact rhistory_recovers. Qed.
+Print Assumptions C19_registry_recovery.
+
+(* ======================= the remaining read / write paths ======================= *)
+
+(* "... or read": list_incident_names (remote_list_incidents, catch_up): every file reported and opened is an entry of the
+   log directory itself that carries the prefix, whatever `since` the peer sends *)
+Theorem C19_listing_contained : forall base listing since n p, wf_base base ->
+  (forall fn, In fn listing -> goodb fn = true) ->
+  In (n, p) (list_incidents base listing since) ->
+  inside base p /\ exists fn, In fn listing /\ p = base ++ sep :: fn /\ prefixb listing_prefix fn = true.
+Proof. exact listing_contained. Qed.
+Print Assumptions C19_listing_contained.
+
+(* both files written per incident (savefile and `latest`) *)
+Theorem C19_gatherer_writes_contained : forall cwd base name l q, wf_base base ->
+  gatherer_writes cwd base name = Some l -> In q l -> inside base q.
+Proof. exact gatherer_writes_contained. Qed.
+Print Assumptions C19_gatherer_writes_contained.
+
+(* ======================= symbolic links AT the names the gatherer writes / the publisher reads ======================= *)
+
+(* "only ever create, replace ... directly inside ... (names of existing symlinks)", PHYSICALLY, for the gatherer's two writes
+   (`<name>.flog.bz2`, `latest`).  Whether save_incident / update_latest remove a pre-existing link before opening is read off
+   the source: with both guards no prefix of the call goes through a link (first conjunct); without the guard on the savefile
+   (resp. on `latest`) a link at that name IS followed (second, third conjunct).  On the pinned tree neither guard exists: the
+   second and third conjuncts are the live ones -- finding oracle/gatherer-follows-preexisting-symlink. *)
+Theorem C19_gatherer_symlinks :
+  (gatherer_save_guarded && gatherer_latest_guarded = true ->
+   forall s q latest chunks ltext k, Inv s -> failed s = false -> followed s = false ->
+     names s q <> Some D -> names s latest <> Some D ->
+     followed (run s (firstn k (gatherer_ops q latest chunks ltext))) = false) /\
+  (gatherer_save_guarded = false ->
+   forall s q latest t chunks ltext, failed s = false -> names s q = Some (L t) ->
+     followed (run s (gatherer_ops q latest chunks ltext)) = true) /\
+  (gatherer_latest_guarded = false ->
+   forall s q latest t chunks ltext, Inv s -> failed s = false -> followed s = false -> gatherer_save_guarded = true ->
+     names s q <> Some D -> q <> latest -> names s latest = Some (L t) ->
+     followed (run s (gatherer_ops q latest chunks ltext)) = true).
+Proof. exact gatherer_symlinks. Qed.
+Print Assumptions C19_gatherer_symlinks.
+
+(* "... or read": remote_get_incident opens the selected file; a link there is read through unless the code refuses links
+   (on the pinned tree it does not: finding oracle/publisher-follows-preexisting-symlink) *)
+Theorem C19_publisher_symlinks :
+  (publisher_link_refused = true -> forall s cwd base name, publisher_reads_through_link s cwd base name = false) /\
+  (publisher_link_refused = false ->
+   forall s cwd base name paths p t, publisher_paths cwd base name = Some paths -> publisher_opened s paths = Some p ->
+     names s p = Some (L t) -> publisher_reads_through_link s cwd base name = true).
+Proof. exact publisher_symlinks. Qed.
+Print Assumptions C19_publisher_symlinks.
